@@ -79,6 +79,37 @@ def make(rule_id, pid=None):
                         else:
                             res.ok({"row": row["id"], "function": f.path, "trigger": tdesc, "preceded_by": req.get("name", req["callee"])}, nontrivial=True)
                         continue
+                    if row.get("mode") == "undo_on_error":
+                        # every way from the trigger to a return that passes an error exit also passes a candidate (the undo)
+                        undo = {("t", c.bb) for c in cands}
+                        starts_ = v.ok_nodes(t.bb) or list(pg.succ[("t", t.bb)])
+                        reach_ = pg.reach(starts_, undo)
+                        err_hit = [e for e in err_all if e in reach_]
+                        escaped = False
+                        if err_hit:
+                            # after an error exit of an inlined helper the threaded result is an Err: the edge
+                            # that tests it to be Ok cannot be taken
+                            from prov import guards as _guards
+                            g2 = _guards(ctx, f)
+                            infeasible = set()
+                            for b_, blk_ in enumerate(f.blocks):
+                                if blk_["cleanup"] or blk_["term"]["t"] != "switch":
+                                    continue
+                                tt = blk_["term"]
+                                vals_ = [str(x) for x, _ in tt["arms"]] + ["otherwise"]
+                                tg_ = [b for _, b in tt["arms"]] + [tt["otherwise"]]
+                                for val_, tgt_ in zip(vals_, tg_):
+                                    if any(re.search(r"^phi\(.*err\(.*\) is (Ok|not Err)$", a_) for a_ in g2.describe_all(b_, val_, vals_)):
+                                        infeasible.update(pg.edge_node(b_, tgt_))
+                            r2 = pg.reach(err_hit, undo | infeasible)
+                            escaped = any(r in r2 for r in pg.returns())
+                        if escaped:
+                            res.fail(Finding(res.rule, key, "%s: after %s an error can leave the function without %s" % (row["why"], tdesc, req.get("name", req["callee"])), f, t.term["span"]))
+                        elif not err_hit:
+                            res.ok({"row": row["id"], "function": f.path, "trigger": tdesc, "note": "no error exit after the trigger"})
+                        else:
+                            res.ok({"row": row["id"], "function": f.path, "trigger": tdesc, "undone_on_error_by": req.get("name", req["callee"])}, nontrivial=True)
+                        continue
                     oks = set()
                     for c in cands:
                         oks.update(v.ok_nodes(c.bb) or [("t", c.bb)])
